@@ -1193,11 +1193,15 @@ package rtcp
 //@   allocates[C01] 4096 + 64*len(b)
 //@   ensures[C07] type: err == nil ==> len(b) >= 4 && b[0]>>6 == 2 && b[1] == 207
 //@   ensures[C04,C15] sender: err == nil ==> len(b) >= 8 && x.SenderSSRC == be32(b, 4)
+//@   ensures[C04,C15] tiled: err == nil ==> specXROff(b, len(x.Reports)) == len(b)
+//@   ensures[C04,C15] typeat: forall k :: err == nil && 0 <= k && k < len(x.Reports) ==> uint8(specXRHeaderOf(x.Reports[k]).BlockType) == b[specXROff(b, k)]
 //@   ensures[C04,C15] kinds: forall k :: err == nil && 0 <= k && k < len(x.Reports) ==> x.Reports[k] != nil && specXRKind(x.Reports[k])
 //@   loop 1
 //@     keeps buffer.bytes
 //@     invariant isSuffix(buffer.bytes, b) && len(b) >= 8 && unchanged(x.SenderSSRC)
 //@     invariant[C04,C15] forall k :: 0 <= k && k < len(x.Reports) ==> x.Reports[k] != nil && specXRKind(x.Reports[k])
+//@     invariant[C04,C15] len(b) - len(buffer.bytes) == specXROff(b, len(x.Reports))
+//@     invariant[C04,C15] forall k :: 0 <= k && k < len(x.Reports) ==> uint8(specXRHeaderOf(x.Reports[k]).BlockType) == b[specXROff(b, k)]
 //@     invariant[C01] allocated() <= 128 + 48*(len(b) - len(buffer.bytes))
 //@     decreases len(buffer.bytes)
 
@@ -1401,6 +1405,9 @@ package rtcp
 
 //@ func specXRBlocksLen(bs []ReportBlock, n int) (result int)
 //@   rec monotone
+
+//@ func specXROff(b []byte, n int) (result int)
+//@   rec
 
 //@ func specXRBlocksAt(buf []byte, off int, bs []ReportBlock, n int) (result bool)
 //@   rec
